@@ -314,6 +314,24 @@ func runC12(tier string, seed uint64) {
 			}
 			s.Get(b, "obj", "")
 		}
+		// a streaming upload with user metadata around the server's metadata limit (2000 bytes by default; the
+		// signing headers of the request count, too): accepted or refused, but what is stored is the payload
+		for _, vl := range []int{1500, 1750, 1800, 1850, 1880, 1900, 1950, 2100} {
+			mpl := []byte(fmt.Sprintf("payload sent with %d bytes of user metadata", vl))
+			mst := encodeChunks(splitChunks(mpl, []int{11}))
+			mk := fmt.Sprintf("meta-%d", vl)
+			r := do(s.h, Req{Method: "PUT", Path: "/" + b + "/" + mk, Body: mst, Header: [][2]string{
+				{"X-Amz-Content-Sha256", "STREAMING-AWS4-HMAC-SHA256-PAYLOAD"}, {"X-Amz-Decoded-Content-Length", strconv.Itoa(len(mpl))},
+				{"X-Amz-Date", "20200102T030405Z"}, {"X-Amz-Meta-Big", strings.Repeat("m", vl)}}})
+			g := do(s.h, Req{Method: "GET", Path: "/" + b + "/" + mk})
+			msg := fmt.Sprintf("%s: aws-chunked upload of %d payload bytes with a %d-byte x-amz-meta value answers %d %s; GET answers %d with %d bytes", kind, len(mpl), vl, r.Status, errCode(r.Body), g.Status, len(g.Body))
+			if (r.Status == 200 && g.Status == 200 && string(g.Body) == string(mpl)) || (r.Status >= 400 && g.Status == 404) {
+				emit(s.prop, "GOOD", hs(msg))
+			} else {
+				emit(s.prop, "BAD", hs("S:stored-bytes-differ-from-the-payload "+msg))
+			}
+			do(s.h, Req{Method: "DELETE", Path: "/" + b + "/" + mk})
+		}
 		// transport failure at every point of the stream, the closing chunk and its signature line included
 		pl := []byte("payload of a chunked upload that breaks off")
 		st := encodeChunks(splitChunks(pl, []int{16}))
